@@ -8,3 +8,8 @@ require (
 	golang.org/x/mod v0.22.0 // indirect
 	golang.org/x/sync v0.10.0 // indirect
 )
+
+require (
+	github.com/anaskhan96/base58check v0.0.0-20181220122047-b05365d494c4
+	github.com/mr-tron/base58 v1.2.0
+)
